@@ -130,4 +130,10 @@ mod proofs {
                           'gen_partialeq_impl is only reached when derive(PartialEq) is `Manually`: no member is a vector, a union is not a Rust union (both from the derive rules, checked by kernel derive_spec)']
         kk.bounds = ['2 fields, <= 2 bit-fields per unit, <= 1 base, <= 2 alias hops, format string <= 64 bytes; kinds, flags, names mangled or not: symbolic']
         return kk
-    return [kernel_or_error('manual_impls', impls), kernel_or_error('derive_spec', k), kernel_or_error('can_derive_laws', laws), kernel_or_error('gates', gates)]
+    def floats():
+        kk = c07.analysis_kernel('has_float', tier, known)
+        kk.harnesses = [h for h in kk.harnesses if h.name == 'step_Comp_c0_nop']
+        for h in kk.harnesses:
+            h.tier = 'quick'
+        return kk
+    return [kernel_or_error('float_exclusion', floats), kernel_or_error('manual_impls', impls), kernel_or_error('derive_spec', k), kernel_or_error('can_derive_laws', laws), kernel_or_error('gates', gates)]
